@@ -546,6 +546,20 @@ func TestC19(t *testing.T) {
 				rec.Inconclusive("cannot find the holder's lock key: %v (%d keys)", err, len(resp.Kvs))
 				return
 			}
+			// the keepalive interval the holder runs with is a third of its lease's ttl: the lease must be the one the
+			// caller asked for (the server's minimum lease ttl is 2 s), or "one keepalive interval" is not the caller's
+			if ttlResp, err := s.cli.TimeToLive(bg, clientv3.LeaseID(resp.Kvs[0].Lease)); err == nil && ttlResp.GrantedTTL > 0 {
+				want := int64((c.TTL + time.Second - 1) / time.Second)
+				if want < 2 {
+					want = 2
+				}
+				rec.Count("etcd_lock_leases_compared_with_the_requested_ttl", 1)
+				if ttlResp.GrantedTTL > want {
+					rec.Violation("etcd/lock-lease-longer-than-the-requested-ttl",
+						fmt.Sprintf("a lock created through the store with ttl %v is backed by a lease of %d s: its holder's keepalive interval (a third of the lease) is %.1f s instead of %.1f s, a lost lock is noticed that much later", c.TTL, ttlResp.GrantedTTL, float64(ttlResp.GrantedTTL)/3, float64(want)/3), c)
+					return
+				}
+			}
 			if _, err := s.cli.Revoke(bg, clientv3.LeaseID(resp.Kvs[0].Lease)); err != nil {
 				rec.Inconclusive("revoke: %v", err)
 				return
